@@ -175,23 +175,63 @@ def coord_type_list_ok(fn, name, basis_param):
     return False, ast.unparse(assigns[0].value)
 
 
+def branch_state(conds):
+    """(transform_state, type_state) implied by a path condition:
+    transform_state in {'yes', 'no', 'unknown'}; type_state in {'cartesian', 'spherical', 'mix', 'any'} or None if a
+    predicate is not recognised."""
+    conds = [(t, pol) for t, pol in conds if not (id(t) in RAISE_GUARDS and not pol)]
+    kinds = [(classify_coord_pred(t), pol) for t, pol in conds]
+    if any(k is None for k, _ in kinds):
+        return None, None
+    tr = "unknown"
+    for k, pol in kinds:
+        if k == "transform":
+            tr = "yes" if pol else "no"
+        elif k == "no-transform":
+            tr = "no" if pol else "yes"
+    pos = {k for k, pol in kinds if pol}
+    neg = {k for k, pol in kinds if not pol}
+    if "all-cartesian" in pos and "all-spherical" in pos:
+        ty = None
+    elif "all-cartesian" in pos:
+        ty = "cartesian"
+    elif "all-spherical" in pos:
+        # an all-spherical test that is not preceded by the all-cartesian test is still right for non-empty bases
+        ty = "spherical"
+    elif "all-cartesian" in neg and "all-spherical" in neg:
+        ty = "mix"
+    elif not ({"all-cartesian", "all-spherical"} & (pos | neg)):
+        ty = "any"
+    else:
+        ty = "partial"
+    return tr, ty
+
+
 def check_wrapper_dispatch(repo, f, R, rule="DISPATCH", must_forward=()):
-    """The four-way dispatch of a public wrapper: transform -> lincomb; all cartesian -> cartesian; all spherical ->
-    spherical; else mix; the four sibling calls forward identical keywords, each the wrapper's own parameter."""
+    """The dispatch of a public wrapper: with a transformation -> construct_array_lincomb (whatever the coordinate types);
+    without one: all cartesian -> cartesian; all spherical -> spherical; else mix; all sibling calls forward identical
+    keywords, each the wrapper's own parameter."""
     fn = f.node
     pc = path_conditions(fn)
     sites = []
+    recv_names = {}
     for node in walk_no_nested(fn):
-        if isinstance(node, ast.Call) and isinstance(node.func, ast.Attribute) and node.func.attr.startswith("construct_array_") \
-                and isinstance(node.func.value, ast.Call):
-            sites.append(node)
-    sites.sort(key=lambda c: c.lineno)
-    if len(sites) != 4:
-        raise AnalysisError(rule, f"expected the 4 assembly calls in {f.qualname}, found {len(sites)}", f.where())
-    classes = {ast.unparse(c.func.value.func) for c in sites}
+        if isinstance(node, ast.Assign) and len(node.targets) == 1 and isinstance(node.targets[0], ast.Name) and isinstance(node.value, ast.Call):
+            recv_names.setdefault(node.targets[0].id, []).append(node.value)
+    for node in walk_no_nested(fn):
+        if isinstance(node, ast.Call) and isinstance(node.func, ast.Attribute) and node.func.attr.startswith("construct_array_"):
+            recv = node.func.value
+            if isinstance(recv, ast.Name) and len(recv_names.get(recv.id, [])) == 1:
+                recv = recv_names[recv.id][0]
+            if isinstance(recv, ast.Call):
+                sites.append((node, recv))
+    sites.sort(key=lambda c: c[0].lineno)
+    if len(sites) < 4:
+        raise AnalysisError(rule, f"expected at least the 4 assembly calls in {f.qualname}, found {len(sites)}", f.where())
+    classes = {ast.unparse(r.func) for _c, r in sites}
     if len(classes) != 1:
         R.fail(rule, f.site, "assembly class", f"the dispatch branches of {f.name} use different classes: {sorted(classes)}", where=f.where())
-        return 4
+        return len(sites)
     cls = repo.resolve_name(f.module, classes.pop(), f)
     kernel = cls.lookup("construct_array_contraction") if cls is not None and hasattr(cls, "lookup") else None
     if isinstance(kernel, ast.AST):
@@ -212,60 +252,82 @@ def check_wrapper_dispatch(repo, f, R, rule="DISPATCH", must_forward=()):
     n_def = len(ka.defaults)
     required = set(kw_params[: len(kw_params) - n_def]) if n_def else set(kw_params)
     basis_param = f.params[0]
-    seen = {}
-    kwsets = {}
-    for call in sites:
+    kwsets = []
+    reach = {"lincomb": set(), "cartesian": 0, "spherical": 0, "mix": 0}
+    for call, ctor in sites:
         meth = call.func.attr[len("construct_array_"):]
         st = stmt_of(fn, call)
         conds = pc.get(id(st), ())
-        eff = effective_branch(conds)
+        tr, ty = branch_state(conds)
         text = f"{ast.unparse(call.func)}(...) under [{cond_text(conds)[:110]}]"
-        if eff is None:
+        if ty is None:
             raise AnalysisError(rule, f"dispatch predicate not recognised: {cond_text(conds)[:120]}", f.where(call))
-        R.check(eff == meth, rule, f.site, text,
-                f"this branch is taken for a {'transformed' if eff == 'lincomb' else eff} basis but assembles with construct_array_{meth}",
-                where=f.where(call), expected=f"construct_array_{eff}", found=f"construct_array_{meth}")
-        seen[meth] = seen.get(meth, 0) + 1
-        # class constructed on the wrapper's basis
-        ctor = call.func.value
+        if meth == "lincomb":
+            R.check(tr == "yes", rule, f.site, text, "construct_array_lincomb is called on a path where no transformation is known to be given",
+                    where=f.where(call), expected="under `transform is not None`", found=cond_text(conds)[:100])
+            reach["lincomb"].add(ty)
+        elif meth in ("cartesian", "spherical", "mix"):
+            R.check(tr == "no", rule, f.site, text,
+                    f"this branch assembles with construct_array_{meth} although a transformation may have been given: the transformation is "
+                    f"silently ignored for {'mixed' if meth == 'mix' else 'all-' + meth} bases",
+                    where=f.where(call), expected="reached only when `transform is None`", found=cond_text(conds)[:100])
+            R.check(ty == meth, rule, f.site, text + " :: coordinate types",
+                    f"this branch is taken for {'every' if ty == 'any' else 'a ' + str(ty)} basis but assembles with construct_array_{meth}",
+                    where=f.where(call), expected=f"construct_array_{ty}", found=f"construct_array_{meth}")
+            reach[meth] += 1
+        else:
+            raise AnalysisError(rule, f"unknown assembly method construct_array_{meth}", f.where(call))
         R.check([ast.unparse(a) for a in ctor.args] == [basis_param] and not ctor.keywords, rule, f.site,
-                f"{ast.unparse(ctor)} in branch {meth}", "the assembly object must be built on the given basis",
+                f"{ast.unparse(ctor)} for branch {meth}", "the assembly object must be built on the given basis",
                 where=f.where(call), expected=f"{cls.name}({basis_param})", found=ast.unparse(ctor))
         pos = [ast.unparse(a) for a in call.args]
+        ct_node = None
         if meth == "lincomb":
             okp = len(pos) == 2 and pos[0] == "transform"
-            ct_name = pos[1] if len(pos) == 2 else None
+            ct_node = call.args[1] if len(pos) == 2 else None
         elif meth == "mix":
             okp = len(pos) == 1
-            ct_name = pos[0] if pos else None
+            ct_node = call.args[0] if pos else None
         else:
             okp = not pos
-            ct_name = None
-        R.check(okp, rule, f.site, f"positional arguments of branch {meth}", "unexpected positional arguments",
+        R.check(okp, rule, f.site, f"positional arguments of {ast.unparse(call.func)} line-order {sites.index((call, ctor))}", "unexpected positional arguments",
                 where=f.where(call), expected={"lincomb": "(transform, coord_type)", "mix": "(coord_type)"}.get(meth, "()"), found=pos)
-        if ct_name is not None:
-            ok, how = coord_type_list_ok(fn, ct_name, basis_param)
-            R.check(ok, rule, f.site, f"{ct_name} in branch {meth}",
+        if ct_node is not None:
+            if isinstance(ct_node, ast.Name):
+                ok, how = coord_type_list_ok(fn, ct_node.id, basis_param)
+            else:
+                # a literal type list is acceptable when the path condition already established that uniform type
+                try:
+                    lit = ast.literal_eval(ct_node)
+                except Exception:
+                    lit = None
+                ok = isinstance(lit, (list, tuple)) and len(lit) >= 1 and all(x == ty for x in lit) and ty in ("cartesian", "spherical")
+                how = ast.unparse(ct_node)
+            R.check(ok, rule, f.site, f"coordinate types `{ast.unparse(ct_node)}` in branch {meth}",
                     "the coordinate types handed to the assembly must be the shells' own coord_type, in basis order",
                     where=f.where(call), expected=f"[shell.coord_type for shell in {basis_param}]", found=how)
-        kwsets[meth] = kwargs_of_call(fn, call)
-    R.check(all(seen.get(m, 0) == 1 for m in ASSEMBLY), rule, f.site, "one call per assembly",
-            "each of lincomb/cartesian/spherical/mix must be reachable exactly once", where=f.where(), expected={m: 1 for m in ASSEMBLY}, found=seen)
-    ref = kwsets.get("cartesian", {})
-    for meth, kws in kwsets.items():
-        R.check(kws == ref, rule, f.site, f"keywords of branch {meth}",
-                f"branch {meth} forwards {kws} but branch cartesian forwards {ref}: results would depend on the coordinate-type branch",
-                where=f.where(), expected=ref, found=kws)
+        kwsets.append((meth, call, kwargs_of_call(fn, call)))
+    lin_ok = "any" in reach["lincomb"] or {"cartesian", "spherical", "mix"} <= reach["lincomb"]
+    R.check(lin_ok, rule, f.site, "transformation honoured for every coordinate-type pattern",
+            f"with a transformation given, construct_array_lincomb is only reached for {sorted(reach['lincomb'])} bases",
+            where=f.where(), expected="lincomb reachable for cartesian, spherical and mixed bases", found=sorted(reach["lincomb"]))
+    R.check(all(reach[m] >= 1 for m in ("cartesian", "spherical", "mix")), rule, f.site, "one branch per assembly",
+            "each of cartesian/spherical/mix must be reachable", where=f.where(), found={k: v for k, v in reach.items() if k != "lincomb"})
+    ref = kwsets[0][2]
+    for meth, call, kws in kwsets:
+        R.check(kws == ref, rule, f.site, f"keywords of {ast.unparse(call.func)} (site {kwsets.index((meth, call, kws))})",
+                f"branch {meth} forwards {kws} but branch {kwsets[0][0]} forwards {ref}: results would depend on the coordinate-type branch",
+                where=f.where(call), expected=ref, found=kws)
     wrapper_params = set(f.params)
     for p in kw_params:
         if p in required or p in wrapper_params:
-            for meth, kws in kwsets.items():
-                R.check(kws.get(p) == p, rule, f.site, f"{p}= in branch {meth}",
+            for meth, call, kws in kwsets:
+                R.check(kws.get(p) == p, rule, f.site, f"{p}= at {ast.unparse(call.func)} (site {kwsets.index((meth, call, kws))})",
                         f"kernel parameter `{p}` is not forwarded from the wrapper's parameter in branch {meth} "
                         f"({'missing: the default is used silently' if p not in kws else 'receives ' + str(kws.get(p))})",
-                        where=f.where(), expected=f"{p}={p}", found=kws.get(p))
-    for meth, kws in kwsets.items():
+                        where=f.where(call), expected=f"{p}={p}", found=kws.get(p))
+    for meth, call, kws in kwsets:
         extra = set(kws) - set(kw_params)
-        R.check(not extra, rule, f.site, f"unknown keywords in branch {meth}", f"keywords {sorted(extra)} are not kernel parameters",
-                where=f.where(), expected=sorted(kw_params), found=sorted(kws))
-    return 4
+        R.check(not extra, rule, f.site, f"unknown keywords at {ast.unparse(call.func)} (site {kwsets.index((meth, call, kws))})",
+                f"keywords {sorted(extra)} are not kernel parameters", where=f.where(call), expected=sorted(kw_params), found=sorted(kws))
+    return len(sites)
